@@ -236,11 +236,49 @@ func (s *Server) sendTransaction(t Transaction) error {
 	return nil
 }
 
+// sendTransactionInOrder writes t to client once every transaction that was queued for that client before it (those
+// with a smaller ticket) has been written.  Each transaction still has its own goroutine, so a client that does not
+// read only holds up what is meant for itself; but two notices about the same user can no longer overtake each other
+// on their way to one recipient, which left that recipient's user list wrong for good.
+func (s *Server) sendTransactionInOrder(client *ClientConn, ticket uint64, t Transaction) error {
+	client.writeMu.Lock()
+	defer client.writeMu.Unlock()
+
+	if client.sendCond == nil {
+		client.sendCond = sync.NewCond(&client.writeMu)
+	}
+
+	for client.sendDone != ticket {
+		client.sendCond.Wait()
+	}
+
+	defer func() {
+		client.sendDone++
+		client.sendCond.Broadcast()
+	}()
+
+	if _, err := io.Copy(client.Connection, &t); err != nil {
+		return fmt.Errorf("failed to send transaction to client %v: %v", t.ClientID, err)
+	}
+
+	return nil
+}
+
 func (s *Server) processOutbox() {
 	for {
 		t := <-s.outbox
+
+		// Only this goroutine hands out tickets, in the order the transactions were queued.
+		client := s.ClientMgr.Get(t.ClientID)
+		if client == nil {
+			continue
+		}
+
+		ticket := client.sendQueued
+		client.sendQueued++
+
 		go func() {
-			if err := s.sendTransaction(t); err != nil {
+			if err := s.sendTransactionInOrder(client, ticket, t); err != nil {
 				s.Logger.Error("error sending transaction", "err", err)
 			}
 		}()
